@@ -2,6 +2,7 @@
 package rdb
 
 import (
+	"io"
 	"bytes"
 	"fmt"
 	"math"
@@ -89,6 +90,13 @@ func c12Same(a, b interface{}) bool {
 		return true
 	}
 	return false
+}
+
+func c12Cut(s string) string {
+	if len(s) > 300 {
+		return s[:300] + fmt.Sprintf("... (%d bytes)", len(s))
+	}
+	return s
 }
 
 func c12Show(o interface{}) string {
@@ -319,6 +327,16 @@ func c12FileObjs() []interface{} {
 
 func c12File(recs []c12Rec) {
 	objs := c12FileObjs()
+	// object indexes 8 and 9: a string of 1.5 MiB and a list with an element of 1.2 MiB; a file
+	// that holds one of them is read the way a socket or a pipe delivers it, in reads of at most
+	// 70001 bytes
+	big := false
+	for _, r := range recs {
+		big = big || r.Obj >= len(objs)
+	}
+	if big {
+		objs = append(objs, String(c12Pattern(3<<19)), List{[]byte("a"), c12Pattern(1200000), []byte("z")})
+	}
 	keys := [][]byte{[]byte("k"), []byte("12"), c12Pattern(70)}
 	c := map[string]interface{}{"sub": "file", "recs": recs}
 	var buf bytes.Buffer
@@ -337,7 +355,11 @@ func c12File(recs []c12Rec) {
 		ev.Violate("C12|file-encode", err.Error(), c)
 		return
 	}
-	l := NewLoader(bytes.NewReader(buf.Bytes()))
+	var src io.Reader = bytes.NewReader(buf.Bytes())
+	if big {
+		src = &c01Pieces{r: src, max: 70001}
+	}
+	l := NewLoader(src)
 	if err := l.Header(); err != nil {
 		ev.Violate("C12|file-header", fmt.Sprintf("file written by the encoder is rejected: %v", err), c)
 		return
@@ -355,7 +377,7 @@ func c12File(recs []c12Rec) {
 		}
 		if oe.DB != r.DB || !bytes.Equal(oe.Key, keys[r.Key]) || oe.ExpireAt != r.Expire || !c12Same(objs[r.Obj], oe.Value) {
 			ev.Violate("C12|file-record", fmt.Sprintf("record %d written as (db %d, key %q, expire %d, %s) read back as (db %d, key %q, expire %d, %s)",
-				i, r.DB, keys[r.Key], r.Expire, c12Show(objs[r.Obj]), oe.DB, oe.Key, oe.ExpireAt, c12Show(oe.Value)), c)
+				i, r.DB, keys[r.Key], r.Expire, c12Cut(c12Show(objs[r.Obj])), oe.DB, oe.Key, oe.ExpireAt, c12Cut(c12Show(oe.Value))), c)
 			return
 		}
 	}
@@ -522,6 +544,19 @@ func TestVerif_C12(t *testing.T) {
 					c12File([]c12Rec{a, b, c})
 					n++
 				}
+			}
+		}
+	}
+	// files with strings beyond 1 MiB, delivered in pieces
+	for _, o := range []int{8, 9} {
+		for _, ex := range []uint64{0, 4102444800123} {
+			if mine() {
+				c12File([]c12Rec{{0, 0, 0, 0}, {3, 1, ex, o}, {3, 2, 0, 2}})
+				n++
+			}
+			if mine() {
+				c12File([]c12Rec{{1, 2, ex, o}, {1, 0, 0, 17 - o}})
+				n++
 			}
 		}
 	}
